@@ -27,7 +27,7 @@ theorem kstep_tmInit (fuel : Nat) (hk : KInv s a) (hph : a.ph = .init q) (hold :
   obtain ⟨hqe, ⟨hkind, hcbs, hout⟩, hproc, hpe⟩ := htm
   have hgs : a.cur + 1 < s.events.size := KState.lt_of_cbs hcbs
   have hwf := openEvent_wf s q rest hk.wf hp
-  have hc0 := hk.c0; have hc1 := hk.c1; have hc2 := hk.c2; have hc3 := hk.c3; have hc4 := hk.c4; have hc5 := hk.c5
+  have hc0 := hk.c0; have hc1 := hk.c1; have hc2 := hk.c2; have hc3 := hk.c3; have hc4 := hk.c4; have hc5 := hk.c5; have hc6 := hk.c6
   have hnd := hk.nd
   have hlt := hk.idlt
   rw [step_eq _ _ _ _ _ _ hp (hqe ▸ hcbs)]
@@ -37,7 +37,7 @@ theorem kstep_tmInit (fuel : Nat) (hk : KInv s a) (hph : a.ph = .init q) (hold :
   have hd : 0 ≤ a.expire - q.time := by linarith
   tsimp [hqe, hgs, hkind, hcbs, hout, Nat.ne_of_lt hgs, hc1, hexp, hd]
   simp only [idsk, hph, hold, hqe] at hnd hlt
-  refine ⟨⟨?_, ?_, ?_, ?_, ?_, ?_, ?_, ?_, ?_, ?_, ?_, ?_, ?_⟩, ?_⟩
+  refine ⟨⟨?_, ?_, ?_, ?_, ?_, ?_, ?_, ?_, ?_, ?_, ?_, ?_, ?_, ?_⟩, ?_⟩
   · exact wf_push1 hwf.1 _ rfl rfl rfl rfl (by show q.time ≤ a.expire; linarith)
   · simp only [A.entries, TPhase.entries, List.singleton_append]
     exact List.Perm.cons _ hrest
@@ -64,6 +64,7 @@ theorem kstep_tmInit (fuel : Nat) (hk : KInv s a) (hph : a.ph = .init q) (hold :
   · tsimp [hc3]
   · tsimp [hc4]
   · tsimp [hc5]
+  · tsimp [hc6, oldStat, hold]
   · simp [histOf_push]
 
 
@@ -80,7 +81,7 @@ theorem kstep_intr (fuel : Nat) (hk : KInv s a) {o : Old} (hold : a.old = some o
   have hgt : o.t < s.events.size := KState.lt_of_cbs htc
   have hgp : o.p < s.events.size := KState.lt_of_cbs hpc
   have hwf := openEvent_wf s o.qi rest hk.wf hp
-  have hc0 := hk.c0; have hc1 := hk.c1; have hc2 := hk.c2; have hc3 := hk.c3; have hc4 := hk.c4; have hc5 := hk.c5
+  have hc0 := hk.c0; have hc1 := hk.c1; have hc2 := hk.c2; have hc3 := hk.c3; have hc4 := hk.c4; have hc5 := hk.c5; have hc6 := hk.c6
   obtain ⟨nph, nold, nctl, nnoop, dph, dold, dctl⟩ := (ids_nodup_iff a).mp hk.nd
   have hlt := hk.idlt
   simp only [hold, oldIds, List.nodup_cons, List.mem_cons, List.not_mem_nil, or_false, not_or, forall_eq_or_imp,
@@ -100,7 +101,7 @@ theorem kstep_intr (fuel : Nat) (hk : KInv s a) {o : Old} (hold : a.old = some o
   tsimp [hqe, hgi, hgt, hgp, hkind, hcbs, hout, hdef, htk, htc, hto, hpk, hpc, hpo, hne1, hne2, hne3, Ne.symm hne1, Ne.symm hne2,
     Ne.symm hne3, intrExc]
   intro hmono
-  refine ⟨⟨?_, ?_, ?_, ?_, ?_, ?_, ?_, ?_, ?_, ?_, ?_, ?_, ?_⟩, ?_⟩
+  refine ⟨⟨?_, ?_, ?_, ?_, ?_, ?_, ?_, ?_, ?_, ?_, ?_, ?_, ?_, ?_⟩, ?_⟩
   · exact wf_push1 hwf.1 _ rfl rfl rfl rfl (le_refl _)
   · simp only [A.entries, oldEntries]
     perm_count hrest
@@ -140,6 +141,7 @@ theorem kstep_intr (fuel : Nat) (hk : KInv s a) {o : Old} (hold : a.old = some o
   · tsimp [hc3]
   · tsimp [hc4]
   · tsimp [hc5]
+  · tsimp [hc6, oldStat, hold]
   · simp [histOf_push]
 
 
@@ -153,7 +155,7 @@ macro "wakeSleep_leaf" : tactic => `(tactic| (
       tsimp [hqe, hgs, hgc, hkind, hcbs, hout, Nat.ne_of_lt hgs, Nat.ne_of_lt hgc, hc0, hc1, hc2, hc4, hc5, hcont, hcont', hd', hst, hcb,
         hpk, hpo, hact, le_of_lt hT, hne, Ne.symm hne]
       intro _hm
-      refine ⟨⟨?_, ?_, ?_, ?_, ?_, ?_, ?_, ?_, ?_, ?_, ?_, ?_, ?_⟩, ?_⟩
+      refine ⟨⟨?_, ?_, ?_, ?_, ?_, ?_, ?_, ?_, ?_, ?_, ?_, ?_, ?_, ?_⟩, ?_⟩
       · exact wf_push1 hwf.1 _ rfl rfl rfl rfl (le_of_lt hcont)
       · simp only [A.entries, TPhase.entries, List.singleton_append]
         exact List.Perm.cons _ hrest
@@ -178,6 +180,7 @@ macro "wakeSleep_leaf" : tactic => `(tactic| (
       · tsimp [hc3]
       · tsimp [hc4]
       · tsimp [hc5]
+      · tsimp [hc6, oldStat, hold]
       · simp [histOf_push]))
 
 /-- the sleep timeout of `self.proc` is processed and the loop goes on: the process sleeps again -/
@@ -195,7 +198,7 @@ theorem kstep_wakeSleep (fuel : Nat) (hk : KInv s a) {t : EvId} (hph : a.ph = .s
   have hgs : t < s.events.size := KState.lt_of_cbs hcbs
   have hgc : a.cur < s.events.size := KState.lt_of_cbs hpc
   have hwf := openEvent_wf s q rest hk.wf hp
-  have hc0 := hk.c0; have hc1 := hk.c1; have hc2 := hk.c2; have hc3 := hk.c3; have hc4 := hk.c4; have hc5 := hk.c5
+  have hc0 := hk.c0; have hc1 := hk.c1; have hc2 := hk.c2; have hc3 := hk.c3; have hc4 := hk.c4; have hc5 := hk.c5; have hc6 := hk.c6
   obtain ⟨nph, nold, nctl, nnoop, dph, dold, dctl⟩ := (ids_nodup_iff a).mp hk.nd
   have hlt := hk.idlt
   have hnd := hk.nd
@@ -230,7 +233,7 @@ macro "wakeDead_leaf" : tactic => `(tactic| (
       tsimp [hqe, hgs, hgc, hkind, hcbs, hout, Nat.ne_of_lt hgs, Nat.ne_of_lt hgc, hc0, hc1, hc2, hc4, hc5, hcont, hcont', hst, hcb,
         hpk, hpc, hpo, hact, hne, Ne.symm hne]
       intro _hm
-      refine ⟨⟨?_, ?_, ?_, ?_, ?_, ?_, ?_, ?_, ?_, ?_, ?_, ?_, ?_⟩, ?_⟩
+      refine ⟨⟨?_, ?_, ?_, ?_, ?_, ?_, ?_, ?_, ?_, ?_, ?_, ?_, ?_, ?_⟩, ?_⟩
       · exact wf_push1 hwf.1 _ rfl rfl rfl rfl (le_refl _)
       · simp only [A.entries, TPhase.entries, List.nil_append]
         perm_count hrest
@@ -261,6 +264,7 @@ macro "wakeDead_leaf" : tactic => `(tactic| (
       · tsimp [hc3]
       · tsimp [hc4]
       · tsimp [hc5]
+      · tsimp [hc6, oldStat, hold]
       · simp [histOf_push]))
 
 /-- the sleep timeout of `self.proc` is processed and the loop ends: the generator returns -/
@@ -278,7 +282,7 @@ theorem kstep_wakeDead (fuel : Nat) (hk : KInv s a) {t : EvId} (hph : a.ph = .sl
   have hgs : t < s.events.size := KState.lt_of_cbs hcbs
   have hgc : a.cur < s.events.size := KState.lt_of_cbs hpc
   have hwf := openEvent_wf s q rest hk.wf hp
-  have hc0 := hk.c0; have hc1 := hk.c1; have hc2 := hk.c2; have hc3 := hk.c3; have hc4 := hk.c4; have hc5 := hk.c5
+  have hc0 := hk.c0; have hc1 := hk.c1; have hc2 := hk.c2; have hc3 := hk.c3; have hc4 := hk.c4; have hc5 := hk.c5; have hc6 := hk.c6
   obtain ⟨nph, nold, nctl, nnoop, dph, dold, dctl⟩ := (ids_nodup_iff a).mp hk.nd
   have hlt := hk.idlt
   have hnd := hk.nd
@@ -313,10 +317,10 @@ theorem kstep_noop (fuel : Nat) (hk : KInv s a) {l1 l2 : List (QEntry ℚ)} (hq 
     ∃ s', step (body auto arg cbs) (fuel + 1) s = .ok s' ∧ KInv s' { a with noop := l1 ++ l2 } ∧
       s'.now = q.time ∧ histOf s'.trace = histOf s.trace := by
   have hqm : q ∈ a.noop := by rw [hq]; simp
-  obtain ⟨hcbs, v, hout⟩ := hk.noop q hqm
+  obtain ⟨hcbs, ⟨v, hout⟩, hkd⟩ := hk.noop q hqm
   have hgs : q.ev < s.events.size := KState.lt_of_cbs hcbs
   have hwf := openEvent_wf s q rest hk.wf hp
-  have hc0 := hk.c0; have hc1 := hk.c1; have hc2 := hk.c2; have hc3 := hk.c3; have hc4 := hk.c4; have hc5 := hk.c5
+  have hc0 := hk.c0; have hc1 := hk.c1; have hc2 := hk.c2; have hc3 := hk.c3; have hc4 := hk.c4; have hc5 := hk.c5; have hc6 := hk.c6
   obtain ⟨nph, nold, nctl, nnoop, dph, dold, dctl⟩ := (ids_nodup_iff a).mp hk.nd
   have hnd := hk.nd
   have hqe : q.ev ∈ evs a.noop := mem_evs_of hqm
@@ -328,7 +332,7 @@ theorem kstep_noop (fuel : Nat) (hk : KInv s a) {l1 l2 : List (QEntry ℚ)} (hq 
   simp only [KState.ev] at hcbs hout
   tsimp [hgs, hcbs, hout]
   intro hmono
-  refine ⟨wf_same hwf.1 rfl rfl rfl, ?_, ?_, ?_, ?_, ?_, ?_, ?_, ?_, ?_, ?_, ?_, ?_⟩
+  refine ⟨wf_same hwf.1 rfl rfl rfl, ?_, ?_, ?_, ?_, ?_, ?_, ?_, ?_, ?_, ?_, ?_, ?_, ?_⟩
   · simpa [A.entries] using hrest
   · refine hk.tm.keep (X := [q.ev]) (by evkeep) ?_ ?_ (fun _ => hmono)
     · intro e he; simp only [List.mem_singleton]; rintro rfl; exact (dph _ he).2.2 hqe
@@ -355,5 +359,6 @@ theorem kstep_noop (fuel : Nat) (hk : KInv s a) {l1 l2 : List (QEntry ℚ)} (hq 
   · exact hc3
   · exact hc4
   · exact hc5
+  · exact hc6
 
 end TimerK
